@@ -72,7 +72,7 @@ func (s *sys) quiesce() {
 		if n == 0 && len(q.SyncFileDB.WriteChan) == 0 && len(q.DoneChan) == 0 {
 			return
 		}
-		if i > 100000 {
+		if i > 600000 { // >= 30 s
 			engine.Failf("store write queue did not drain (%d items)", n)
 		}
 		time.Sleep(50 * time.Microsecond)
